@@ -135,9 +135,6 @@ type Prio struct {
 // Headers writes a header block on stream (HEADERS + `splits` CONTINUATION
 // frames) and returns the history length once the block is complete.
 func (c *Conn) Headers(stream uint32, fields []hpack.HeaderField, prio *Prio, splits int, endStream bool, r *rand.Rand) (int, error) {
-	if prio != nil && prio.Dep == 0 && !prio.Excl && prio.Weight == 0 {
-		prio = nil // the independent framer omits an all-zero priority block
-	}
 	block := c.Peer.Encode(fields)
 	var parts [][]byte
 	if splits > 0 && len(block) > splits {
@@ -163,11 +160,26 @@ func (c *Conn) Headers(stream uint32, fields []hpack.HeaderField, prio *Prio, sp
 		parts = [][]byte{block}
 	}
 	err := c.Peer.Do(func(fr *http2.Framer) error {
-		p := http2.HeadersFrameParam{StreamID: stream, BlockFragment: parts[0], EndStream: endStream, EndHeaders: len(parts) == 1}
 		if prio != nil {
-			p.Priority = http2.PriorityParam{StreamDep: prio.Dep, Exclusive: prio.Excl, Weight: prio.Weight}
-		}
-		if err := fr.WriteHeaders(p); err != nil {
+			// hand-made frame: the independent framer omits an all-zero priority block,
+			// which is a legal frame (PRIORITY flag set, dependency 0, weight 0)
+			flags := uint8(0x20)
+			if endStream {
+				flags |= 0x1
+			}
+			if len(parts) == 1 {
+				flags |= 0x4
+			}
+			dep := prio.Dep & 0x7fffffff
+			if prio.Excl {
+				dep |= 1 << 31
+			}
+			pl := []byte{byte(dep >> 24), byte(dep >> 16), byte(dep >> 8), byte(dep), prio.Weight}
+			pl = append(pl, parts[0]...)
+			if err := fr.WriteRawFrame(http2.FrameHeaders, http2.Flags(flags), stream, pl); err != nil {
+				return err
+			}
+		} else if err := fr.WriteHeaders(http2.HeadersFrameParam{StreamID: stream, BlockFragment: parts[0], EndStream: endStream, EndHeaders: len(parts) == 1}); err != nil {
 			return err
 		}
 		for i := 1; i < len(parts); i++ {
